@@ -69,20 +69,23 @@ META = {
                    'and exit code 3); C09_report_after_dependencies (the order invariant behind it: the terminal report of a '
                    'task is younger than the terminal report of every closure-graph successor).  Hypothesis BoundedCalc: every '
                    'calc_dep name is a task index < nTasks, i.e. the monitor has enough fixed-point fuel -- needed: '
-                   'C09_cycle_diagnosed_fuel_counterexample.  NOT proved, monitored on every implementation run instead: '
-                   'termination of every run (C09_terminates_full).  The model is tied to doit on '
+                   'C09_cycle_diagnosed_fuel_counterexample.  C09_terminates_serial (FULL, dispatcher + serial runner): on a '
+                   'finite task table (FiniteTable: every name mentioned is an index < N) there is no infinite run, for every '
+                   'graph, oracle and set-iteration order -- every transition decreases a lexicographic measure '
+                   '(C09_serial_step_decreases).  NOT proved, monitored on every implementation run instead: termination of '
+                   'the parallel runners (C09_terminates_full).  The model is tied to doit on '
                    'every run by trace acceptance of the real doit under a watchdog on all digraphs of the small scope x '
                    'selections x runners and on sampled graphs with cycles through every edge kind.'),
-    'level_note': ('partial: C09_terminates_full is stated (def ... : Prop) but not proved (C09_cycle_diagnosed is a theorem '
-                   'since wave 3; exit code 3 is concluded under "no internal error", halt != crash, which is proved '
-                   'unreachable only for the "hold on" paths); the '
+    'level_note': ('partial: C09_terminates_full (all runners) is stated (def ... : Prop) and proved for the serial runner only '
+                   '(C09_terminates_serial); C09_cycle_diagnosed is a theorem since wave 3 (exit code 3 is concluded under '
+                   '"no internal error", halt != crash, which is proved unreachable only for the "hold on" paths); the '
                    'monitor evaluates the full property statement (terminates / exit 3 + Cyclic diagnostic iff the closure '
                    'graph of the run has a cycle / no task on a cycle executed / acyclic => no cycle error, no hang, no '
                    'internal hold-on crash) on every run.  Acyclic is a Prop (existence of a rank function), decided per '
                    'case by a graph search in the harness / driver.  Thread mode: the Cyclic diagnostic is also looked for in '
                    'the stream of an overlapping python-action, where the process-wide sys.stderr swap of doit (open finding '
                    'F-C17a of C17) routes it.  A worker process alive 1.5 s after DoitMain.run returned counts as a hang.'),
-    'partial_theorems': ['C09_terminates_full (def, not proved)'],
+    'partial_theorems': ['C09_terminates_full (def; proved for the serial runner: C09_terminates_serial)'],
     'rule': ('(1) exhaustive: every digraph (self-loops included) on <=3 tasks (quick) / <=4 tasks (thorough) over task_dep '
              'x every selection (none, and every ordered non-empty list of distinct task names; 4 tasks: none + sampled) x '
              'serial / thread k=2 (k=3 for the whole-graph selection) / process (sampled); (2) structured families: '
